@@ -726,7 +726,7 @@ func runMesh(s *sim) {
 					s.violate("C07", "admission", "C07/unexplained-addition", "%s became a member of mesh %s during item %s %v", shortPeer(id), t, it.Op, it.A)
 				}
 			}
-			if !existed && len(Q) > params.D && params.D > 0 {
+			if !existed && len(Q) > params.D {
 				s.violate("C07", "growth", "C07/join/overgrown", "Join(%s) created a mesh of %d > D=%d", t, len(Q), params.D)
 			}
 		}
